@@ -1685,22 +1685,64 @@ func r5C03(c *Ctx) {
 			if ret.Block() == fn.Recover || len(ret.Results) != 2 {
 				continue
 			}
-			canNil, canSettled := false, false
-			for _, lf := range Leaves(ret.Results[1], ret.Block()) {
-				if k, ok := lf.V.(*ssa.Const); ok && k.IsNil() {
-					canNil = true
-				}
-			}
+			canSettled := false
 			for _, lf := range Leaves(ret.Results[0], ret.Block()) {
 				if k, ok := lf.V.(*ssa.Const); !ok || constText(k) == s.settled {
 					canSettled = true
 				}
 			}
-			if !canNil || !canSettled {
+			if !canSettled {
 				continue
 			}
-			if r, _ := CanReach(Entry(fn), func(in ssa.Instruction) bool { return in == ssa.Instruction(ret) }, ReachOpts{CutInstr: isWrite, CutEdge: func(b *ssa.BasicBlock, k int) bool { return EdgeFactMatches(b, k, allowed) }}); r {
-				bad = "the return at " + p.Pos(ret.Pos()) + " answers (" + s.settled + ", nil) although the object was neither found missing nor compared with the desired configuration"
+			// every way the error can be nil here must rest on one of the allowed facts, or come after a write
+			for _, lf := range Leaves(ret.Results[1], ret.Block()) {
+				fs := append(append([]Fact{}, FactsFor(fn).At(ret.Block())...), lf.Facts...)
+				if k, isC := lf.V.(*ssa.Const); isC {
+					if !k.IsNil() {
+						continue
+					}
+				} else {
+					if in, isIn := Forwarded(lf.V).(ssa.Instruction); isIn && isWrite(in) {
+						continue // the error of the write itself: nil means written, not settled
+					}
+					if ex, isEx := Forwarded(lf.V).(*ssa.Extract); isEx {
+						if in, ok := ex.Tuple.(ssa.Instruction); ok && isWrite(in) {
+							continue
+						}
+					}
+					vt := TermOf(lf.V).String()
+					// the value may be a load of a variable cell (captured by a closure): then any value
+					// stored into the cell that the path has found non-nil counts
+					stored := map[string]bool{vt: true}
+					if u, isLoad := lf.V.(*ssa.UnOp); isLoad {
+						if cell, isCell := u.X.(*ssa.Alloc); isCell {
+							for _, cs := range AllocStoresOf(cell) {
+								stored[TermOf(cs.Val).String()] = true
+							}
+						}
+					}
+					nonNil := false
+					for _, fc := range fs {
+						if fc.Op == "!=" && fc.R != nil && fc.R.Op == "const" && fc.R.Name == "nil" && fc.L != nil && stored[fc.L.String()] {
+							nonNil = true
+						}
+					}
+					if nonNil {
+						continue
+					}
+				}
+				if HasFact(fs, allowed) {
+					continue
+				}
+				// a constant nil after a successful write is "written", not "settled"
+				afterWrite := true
+				if r, _ := CanReach(Entry(fn), func(in ssa.Instruction) bool { return in == ssa.Instruction(ret) }, ReachOpts{CutInstr: isWrite, CutEdge: func(b *ssa.BasicBlock, k int) bool { return EdgeFactMatches(b, k, allowed) }}); r {
+					afterWrite = false
+				}
+				if afterWrite {
+					continue
+				}
+				bad = "the return at " + p.Pos(ret.Pos()) + " can answer (" + s.settled + ", nil) although the object was neither found missing nor compared with the desired configuration"
 			}
 		}
 		what := "'verified'"
@@ -1862,14 +1904,27 @@ func r5C09(c *Ctx) {
 			if !ok {
 				continue
 			}
-			ia, ok := st.Addr.(*ssa.IndexAddr)
+			// list[i] = obj, or list[i].field = obj when the list holds small structs
+			addr := st.Addr
+			if fa, isF := addr.(*ssa.FieldAddr); isF {
+				addr = fa.X
+			}
+			ia, ok := addr.(*ssa.IndexAddr)
 			if !ok {
 				continue
 			}
 			if _, isMake := sliceRoot(ia.X).(*ssa.MakeSlice); !isMake {
 				continue
 			}
-			if !strings.Contains(st.Val.Type().String(), "Unstructured") {
+			carriesObj := strings.Contains(st.Val.Type().String(), "Unstructured")
+			if !carriesObj {
+				for x := range BackwardSlice(st.Val) {
+					if strings.Contains(x.Type().String(), "unstructured.Unstructured") {
+						carriesObj = true
+					}
+				}
+			}
+			if !carriesObj {
 				continue
 			}
 			loop := loopBlocks(b)
@@ -2649,6 +2704,28 @@ func init() {
 	imp("C18", "C09", map[string]string{"R9.2e": "R18.10"}, "(R18.10 = C09 R9.2e) while a Rollout is Terminating its routing references cannot be edited through either API version, so the teardown restores what the release wrote before the finalizer goes.")
 }
 
+// rejectsImmutable: the instruction is one of the update validators' immutability comparisons —
+// it carries the 'immutable' rejection text, or compares the old and new workloadRef /
+// traffic routing with reflect.DeepEqual.
+func rejectsImmutable(in ssa.Instruction) bool {
+	for _, op := range in.Operands(nil) {
+		if k, ok := (*op).(*ssa.Const); ok && k.Value != nil && k.Value.Kind() == constant.String && strings.Contains(constant.StringVal(k.Value), "immutable") {
+			return true
+		}
+	}
+	if cc, ok := in.(ssa.CallInstruction); ok {
+		if g := cc.Common().StaticCallee(); g != nil && g.Pkg != nil && g.Pkg.Pkg.Path() == "reflect" && g.Name() == "DeepEqual" {
+			for _, a := range cc.Common().Args {
+				t := TermOf(a)
+				if t.Any(MField("WorkloadRef")) || t.Any(MCall("GetTrafficRouting")) || t.Any(MField("TrafficRoutings")) {
+					return true
+				}
+			}
+		}
+	}
+	return false
+}
+
 func r5C09b(c *Ctx) {
 	p := c.Prog
 	c.Rule("R9.2e", "both update validators apply the immutability checks in the same phases, Progressing and Terminating included", 2)
@@ -2659,10 +2736,21 @@ func r5C09b(c *Ctx) {
 		found := false
 		for _, b := range fn.Blocks {
 			for _, in := range b.Instrs {
-				isMsg := false
-				for _, op := range in.Operands(nil) {
-					if k, ok := (*op).(*ssa.Const); ok && k.Value != nil && k.Value.Kind() == constant.String && strings.Contains(constant.StringVal(k.Value), "is immutable") {
-						isMsg = true
+				isMsg := rejectsImmutable(in)
+				if !isMsg {
+					// the comparisons may sit in a helper of the package that the phase branch calls
+					if cc, ok := in.(ssa.CallInstruction); ok {
+						if g := cc.Common().StaticCallee(); g != nil && g.Blocks != nil && g.Pkg == fn.Pkg && g != fn {
+							for _, h := range samePkgClosure(p, g) {
+								for _, hb := range h.Blocks {
+									for _, hi := range hb.Instrs {
+										if rejectsImmutable(hi) {
+											isMsg = true
+										}
+									}
+								}
+							}
+						}
 					}
 				}
 				if !isMsg {
